@@ -211,7 +211,7 @@ def main():
     with BuildLock():
         okd, logd = build_driver() if ext_ok else (False, 'extraction not built')
     proof_problems = []
-    if not okt and pid in ('C13', 'C15', 'C20', 'C17'):
+    if not okt and pid in ('C13', 'C15', 'C20', 'C17', 'C12'):
         proof_problems.append('translator failed: ' + logt[-1200:])
     hyg = hygiene()
     if hyg:
@@ -220,6 +220,20 @@ def main():
     if tp and not okc:
         m = re.search(r'File "([^"]+)", line (\d+)', logc)
         tp = ['coq build failed%s' % (' at %s:%s' % m.groups() if m else '')] + tp
+    if tp and pid == 'C12':
+        # name the call sites the static lock-discipline theorem rejects
+        q = os.path.join(CACHE, 'lockq-%d.v' % os.getpid())
+        open(q, 'w').write('From Coq Require Import List String.\nFrom UV Require Import LockOrder.\nFrom UVG Require Import LockSites.\n'
+                           'Eval vm_compute in List.filter (fun s => under_cfg s && (is_net (cs_callee s) || mem (cs_callee s) (reach gen_calls gen_fns is_net) '
+                           '|| mem (cs_callee s) lockers || mem (cs_callee s) (reach gen_calls gen_fns (fun c => mem c lockers)) '
+                           '|| String.eqb upd_locker (cs_callee s) || mem (cs_callee s) (reach gen_calls gen_fns (String.eqb upd_locker))))%bool gen_calls.\n')
+        qp = sh('timeout 300 coqc -q -Q theories UV -Q gen UVG %s 2>&1' % q, cwd=COQ, timeout=400)
+        tp.append('call sites inside a config-lock closure that reach the network or a lock (caller, callee, cfg, upd, spawn): ' + ' '.join(qp.stdout.split())[:1500])
+        for ext in ('.v', '.vo', '.glob', '.vok', '.vos'):
+            try:
+                os.remove(q[:-2] + ext)
+            except OSError:
+                pass
     proof_problems += tp
     cone = count_cone(pid)
     coqchk_note = 'not run (quick tier)'
